@@ -56,7 +56,7 @@ def run(ctx):
         "rule": "notifier/listener programs (1..3 notifiers x 1..2 notifies over ids in two words, listener 1..3 waits try/timed/blocking, BitSet and "
                 "CountingBitSet, trigger capacity unbounded and 1 with/without fail_when_buffer_is_full): schedules with <= %d preemptions (first %d per "
                 "program, depth-first from the non-preempting schedule) + seeded random schedules of random programs (ids {0,1,65} / {0,1,5}, capacity inf/1/2) "
-                "+ the lost-wake-up witnesses; each execution of the REAL event::common over a model trigger under the baton scheduler is compared access by "
+                "+ the lost-wake-up witnesses; for every program ALL schedules with <= 1 preemption are run first; each execution of the REAL event::common over a model trigger under the baton scheduler is compared access by "
                 "access (location bijection, kind, both orderings, values, CAS outcome, every callback and return value, final state incl. blocked-forever verdict) "
                 "with the Coq step model on the same schedule; the oracle (kind=spec) is evaluated on the implementation's own observations" % (bound, maxex),
         "exhaustive": False,
@@ -84,7 +84,34 @@ def run(ctx):
         ctx.violation(("lost wake-up (known class: notification_state = Notified, trigger empty, listener blocked in blocking_wait, a notify that returned Ok undelivered): "
                        if known else "event property violated by the implementation under a concrete schedule: ") + line,
                       {"execution": hist, "harness_cmd": cmd, "how_to_rerun": replay}, key=KNOWN_KEY if known else None)
-    if model_mm and not [m for m in spec_mm if "KNOWN-CLASS" not in m[2]]:
+    unkeyed_spec = [m for m in spec_mm if "KNOWN-CLASS" not in m[2]]
+    found = None
+    if model_mm and not unkeyed_spec:
+        # SEARCH phase: the tie broke and no explored execution violated the property outside the known class:
+        # explore the implementation ALONE (no model) on the slow-path / polling shapes to preemption bound 3
+        sj = [[exe, "search", "3", str(i), "16", "4000"] for i in range(16)]
+        import concurrent.futures as cf
+        with cf.ThreadPoolExecutor(max_workers=vlib.NPROC) as ex:
+            outs = list(ex.map(lambda a: vlib.sh(" ".join(a) + " 2>/dev/null", timeout=1500), sj))
+        searched = 0
+        for a, (rc, out) in zip(sj, outs):
+            for l in out.split("\n"):
+                if l.startswith("SEARCHED"):
+                    searched += int(l.split()[1])
+                if l.startswith("SEARCH-FOUND") and not l.startswith("SEARCH-FOUND known") and found is None:
+                    found = (a, l)
+        ctx.cov["search_phase_executions"] = searched
+        if found:
+            a, l = found
+            parts = [x.strip() for x in l.split("|")]
+            hdr = parts[1].split()[1:7]
+            sched = parts[2][2:].strip()
+            replay = "%s one %s %s" % (exe, " ".join(hdr), sched)
+            rc, hist = vlib.sh(replay + " 2>/dev/null", timeout=120)
+            ctx.violation("event property violated by the implementation under a concrete schedule (found by the search phase on the implementation alone, "
+                          "after the trace correspondence broke): " + l,
+                          {"execution": hist.split("\n")[:80], "how_to_rerun": replay, "first_divergence_of_the_tie": model_mm[0][2]})
+    if model_mm and not unkeyed_spec and not found:
         lbl, cmd, line = model_mm[0]
         case_no = int(line.split("case=")[1].split()[0])
         hist = vlib.extract_case(cmd.split(), driver, case_no)
